@@ -36,21 +36,28 @@ def body(c):
         seeks = list(range(0, n + 1))
     queries = K.query_set(seeks=seeks, sinces=[0, 1, 2], prefixes=[user[0], user[1]], keyiters=user[:2] + [user[3]],
                           internal=True)
-    cons = dict(kc, StoreKeys=K.tla_set(sk), TsSet="1..3", Kinds='{"val", "del", "exp"}',
-                MaxVersions="2" if q else "3", Contiguous="FALSE", ReadTs="2", Now="5", NSrc="6",
-                NMixed="2" if q else "4", Queries=queries)
-    groups, ncases = K.gen_store(c, "stores-4keys", cons, workers=12 if q else 14, timeout=4000)
-    nq = sum(len(r["q"]) for g in groups for r in g["runs"])
-    npl = len(groups[0]["pl"])
-    c.cov["store_cases"] = {"stores": len(groups), "placements_per_store": npl, "queries_per_store": len(groups[0]["runs"][0]["q"]),
-                            "predicted_sequences": nq, "max_versions": int(cons["MaxVersions"]),
-                            "store_keys": [tab[i - 1].decode("latin-1") for i in sk],
-                            "key_table": [k.decode("latin-1") for k in tab]}
+    plans = [("stores-4keys", sk, "2", "2" if q else "6",
+              ["managed+inmem"] if q else ["managed+inmem", "managed+vlog", "managed+enc+zstd"])]
+    if not q:   # deeper version histories over fewer keys
+        plans.append(("stores-3keys-3versions", sorted([internal] + user[:2]), "3", "2", ["managed+inmem"]))
     stats = {}
-    confs = ["managed+inmem"] if q else ["managed+inmem", "managed+vlog", "managed+enc+zstd"]
-    for conf in confs:
-        K.replay(c, groups, conf, c.seed, "stores-4keys", keys=tab, mode="store", nproc=vlib.NCPU, collect=stats,
-                 timeout=3000)
+    groups, nq, npl, confs, total_runs = [], 0, 0, [], 0
+    for name, keys_, maxv, nmixed, pconfs in plans:
+        cons = dict(kc, StoreKeys=K.tla_set(keys_), TsSet="1..3", Kinds='{"val", "del", "exp"}', MaxVersions=maxv,
+                    Contiguous="FALSE", ReadTs="2", Now="5", NSrc="6", NMixed=nmixed, Queries=queries)
+        g, ncases = K.gen_store(c, name, cons, workers=12 if q else 14, timeout=4000)
+        q_here = sum(len(r["q"]) for x in g for r in x["runs"])
+        c.cov.setdefault("store_cases", []).append(
+            {"plan": name, "stores": len(g), "placements_per_store": len(g[0]["pl"]), "queries_per_store": len(g[0]["runs"][0]["q"]),
+             "predicted_sequences": q_here, "max_versions": int(maxv), "configurations": pconfs,
+             "store_keys": [tab[i - 1].decode("latin-1") for i in keys_], "key_table": [k.decode("latin-1") for k in tab]})
+        for conf in pconfs:
+            K.replay(c, g, conf, c.seed, name, keys=tab, mode="store", nproc=vlib.NCPU, collect=stats, timeout=6000)
+        total_runs += q_here * len(g[0]["pl"]) * len(pconfs)
+        if not groups:
+            groups, nq, npl, confs = g, q_here, len(g[0]["pl"]), pconfs
+        else:
+            groups = groups + g
     # pending writes of the reading transaction x reverse / forward Seek to exactly each key
     # (the pendingWritesIterator is one more merge source)
     pq = K.query_set(seeks=[0] + user[:4], sinces=[0], prefixes=[user[0]], keyiters=user[:2])
@@ -66,8 +73,8 @@ def body(c):
     for src in ("place.mt", "place.imm", "place.l0a", "place.l0b", "place.l1", "place.l2"):
         if stats.get(src, 0) == 0:
             raise vlib.Inconclusive("no version was ever placed in %s" % src)
-    if stats.get("query", 0) < nq * len(confs):
-        raise vlib.Inconclusive("store replay executed %s iterator checks, expected at least %d" % (stats.get("query"), nq * len(confs)))
+    if stats.get("query", 0) < total_runs:
+        raise vlib.Inconclusive("store replay executed %s iterator checks, expected at least %d" % (stats.get("query"), total_runs))
     # histories with iterator options in ordinary mode (prefetch setting derives from the seed)
     sim = K.hist_consts(tab, Exps="{0, 3}", MaxNow="3", HistLen="30", MaxOps="4", IterOptList=K.iter_templates(tab),
                         SplitIter="TRUE", EnvSteps=K.tla_set(K.ENV_ALL), WriteWeight="2")
@@ -88,12 +95,12 @@ def body(c):
         for pf in (["-prefetch", "on", "-psize", "1"], ["-prefetch", "off"]) if not q else ([],):
             K.replay(c, sims, conf, c.seed, "sim-iter-options", keys=tab, flags=pf)
     keys = set(json.dumps([g["store"], i]) for g in groups for i in range(npl) if g["store"])
-    c.add_cases(nq * npl * len(confs) + len(sims) * len(hconfs), keys, traces=len(groups) * npl * len(confs) + len(sims) * len(hconfs))
+    c.add_cases(total_runs + len(sims) * len(hconfs), keys, traces=len(groups) * npl * len(confs) + len(sims) * len(hconfs))
     c.cov["rule"] = ("a case = (version history over %d store keys with <= %s versions of kinds value/tombstone/expired, "
                      "placement variant); non-trivial = non-empty store; evaluations = predicted iterator sequences x "
                      "placements x configurations + simulated histories; exhaustive over stores and option records in "
                      "the bound, placements are the %d uniform + %s mixed variants KVIterGen!Placements defines"
-                     % (len(sk), cons["MaxVersions"], 6, cons["NMixed"]))
+                     % (len(sk), "2 (and <= 3 over 3 keys in the thorough tier)", 6, "2" if q else "6"))
     c.cov["exhaustive"] = True
     g = groups[len(groups) // 3]
     c.sample({"store": g["store"], "placement(1=mt,2=imm,3=l0a,4=l0b,5=l1,6=l2)": g["pl"][-1],
